@@ -188,3 +188,41 @@ def from_bytes_bad(f):
             break
         out.append(n)
     return out
+
+
+def sentinel_bytes_ok(f: "BinaryIO"):
+    out = []
+    for z in iter(lambda: f.read(16), b''):
+        out.append(z)
+    return out
+
+
+def sentinel_wrong_type_bad(f: "BinaryIO"):
+    out = []
+    for z in iter(lambda: f.read(16), ''):  # b'' != '': never ends at EOF
+        out.append(z)
+    return out
+
+
+def sentinel_unknown_stream_undecided(f):
+    out = []
+    for z in iter(lambda: f.read(16), ''):  # fine for a text stream, endless for a binary one: type not established
+        out.append(z)
+    return out
+
+
+def eq_literal_wrong_type_bad(f: "BinaryIO"):
+    out = []
+    while True:
+        z = f.read(16)
+        if z == '':  # never true on a binary stream
+            break
+        out.append(z)
+    return out
+
+
+def walrus_ne_wrong_type_bad(f: "BinaryIO"):
+    out = []
+    while (z := f.read(16)) != '':  # always true on a binary stream
+        out.append(z)
+    return out
